@@ -17,4 +17,14 @@ CHECKS = {
   "note": "Trusted: Coq kernel + vm_compute; time.ParseDuration in front of the model; amd64 float->uint64 semantics for negative values; harness-compiled constants. Cloud-role (AWS) template lifetime is not yet exercised.",
   "technique": "Coq proof over Z (lia) + regenerated constants + differential correspondence",
  },
+ "C11": {
+  "text": "Theorems over an octet-level model of the RFC 3779 codec and the membership test: c11_roundtrip/c11_extract_minted (decode(encode b) = b for every prefix 0..32 and every masked address), c11_iff (a minted certificate accepts a peer iff the peer lies in one of its blocks; only IPv4/IPv4-mapped peers ever match), c11_malformed_never_widens (for ANY extension content acceptance is witnessed by a literal <=32-bit IPv4 block containing the peer; the decoder is total), c11_refresh_same_blocks. Correspondence: all prefixes x boundary peers minted through the real role endpoint, VerifyIP/ExtractIPNets/refresh endpoint vs the model evaluated in Coq, client-supplied address headers, ~70 corrupted extensions in role-CA-signed certificates; independent numeric oracle.",
+  "note": "Trusted: Coq kernel + vm_compute; encoding/asn1, crypto/x509, net.ParseIP in front of the model; TLS chain verification by crypto/tls (harness supplies VerifiedChains of really signed certificates). The equivalence of the octet-wise mask comparison with the numeric prefix comparison is checked by the harness oracle, not proved.",
+  "technique": "Coq proof (finite prefix sweep lifted over symbolic octets, induction over block lists) + differential correspondence",
+ },
+ "C10": {
+  "text": "Theorems c10_strong/c10_strong_complete (the strength predicate holds exactly for RSA >= 2048 bits with e >= 65537, NIST curves >= 256 bits, Ed25519), c10_pipeline/c10_weak_is_client_error (parse;validate;sign signs only validated keys, weak ones are client errors), c10_decoder_total (keymaster's own address-extension decoder is total on every bit string). Correspondence: the real ValidatePublicKeyStrength on every RSA modulus size 1..4200 x exponents, curves, Ed25519, DSA, X25519 compared with the model in Coq; the key corpus down all six issuing HTTP paths (ssh, x509, kubernetes, role, refresh, cloud-role behind a fake STS); mutation fuzzing of keys/tokens/parameters through every path under a panic-recording wrapper.",
+  "note": "Partial: panic-freedom of library parsers (x509, ssh, pem, jose, multipart) is fuzzing, not a theorem. Trusted: parsers in front of the model, fake STS.",
+  "technique": "Coq proof of the decision predicate + exhaustive-size differential sweep + mutation fuzzing (support)",
+ },
 }
